@@ -231,3 +231,14 @@ func (sw *slidingWindow) write(p []byte) {
 
 	sw.buf = append(sw.buf, p...)
 }
+
+// validWindowBits reports whether v is a valid value of a max_window_bits
+// extension parameter: an integer from 8 to 15 without leading zeros, see
+// RFC 7692 section 7.1.2.
+func validWindowBits(v string) bool {
+	switch v {
+	case "8", "9", "10", "11", "12", "13", "14", "15":
+		return true
+	}
+	return false
+}
